@@ -352,20 +352,36 @@ func c02CheckText(c c02TextCase) *kit.Fail {
 	if f := cl.recheckClones(); f != nil {
 		return f
 	}
-	m := refread.New()
-	out := m.Read(name, text, refread.Options{StopAtTooLong: err != nil})
-	if err != nil && !out.Stopped {
-		return kit.Failf("unexpected-io-error", "Err()=%v but no line is longer than %d bytes", err, refread.MaxLine)
+	// A conforming reader may have any line-length limit >= the bufio.Scanner
+	// default: it stops (Err() != nil) in front of the first line longer than
+	// its limit. Every limit that makes a difference for this text is tried;
+	// the observation must agree with one of them.
+	var first *kit.Fail
+	for _, lim := range refread.LineLimits(text) {
+		m := refread.New()
+		out := m.Read(name, text, refread.Options{LineLimit: lim})
+		f := func() *kit.Fail {
+			if err != nil && !out.Stopped {
+				return kit.Failf("unexpected-io-error", "Err()=%v but no line is longer than %d bytes", err, lim)
+			}
+			if err == nil && out.Stopped {
+				return kit.Failf("record-missing", "Err()==nil although the reader did not get past line %d (longer than %d bytes)", len(out.Records), lim)
+			}
+			want := c02Want(out.Records, name, map[string]string{})
+			if f := c02Compare(cl.got, want); f != nil {
+				return f
+			}
+			return c02CheckUnits(rd.Units(), m.Units)
+		}()
+		if f == nil {
+			c02CountStats(out.Stats, out.TooLongLine != 0, err != nil)
+			return nil
+		}
+		if first == nil {
+			first = f
+		}
 	}
-	want := c02Want(out.Records, name, map[string]string{})
-	if f := c02Compare(cl.got, want); f != nil {
-		return f
-	}
-	if f := c02CheckUnits(rd.Units(), m.Units); f != nil {
-		return f
-	}
-	c02CountStats(out.Stats, out.TooLongLine != 0, err != nil)
-	return nil
+	return first
 }
 
 func c02CountStats(s refread.Stats, tooLong, stopped bool) {
@@ -484,81 +500,111 @@ func c02CheckFiles(c c02FilesCase) *kit.Fail {
 		return f
 	}
 
-	m := refread.New()
-	var want []c02Rec
-	var stats refread.Stats
-	stopped, tooLong := false, false
-	usedDup := map[string]int{} // disambiguated label -> entry that used it
-	for i, e := range entries {
-		if e.file < 0 {
-			if gotErr == nil {
-				return kit.Failf("missing-io-error", "path #%d does not exist but Err()==nil", i)
-			}
-			stopped = true
-			break
+	// Every line-length limit a conforming reader may have is tried (see
+	// c02CheckText); the observation must agree with one of them.
+	var texts []string
+	for _, e := range entries {
+		if e.file >= 0 {
+			texts = append(texts, string(c.Files[e.file].Text))
 		}
-		out := m.Read(e.path, string(c.Files[e.file].Text), refread.Options{StopAtTooLong: gotErr != nil})
-		tooLong = tooLong || out.TooLongLine != 0
-		stats = c02AddStats(stats, out.Stats)
-		// Expected .file label. Labelled: the label, verbatim. Path given
-		// once: the path. Path given several times: the documentation
-		// promises the path followed by "#N" without fixing N, so the label
-		// observed on this entry's first result is validated (shape, and
-		// not used by another occurrence) and then expected on all of them.
-		lab := e.path
-		switch {
-		case e.labeled:
-			lab = e.label
-			kit.Count("labelled path entries", 1)
-		case argCount[e.path] > 1:
-			kit.Count("duplicate path entries", 1)
-			lab = e.path + "#?"
-			// records before len(want) have already been compared; this
-			// entry's records follow, up to the next change of file or
-			// restart of the line numbers
-			lastLine := 0
-			for _, g := range cl.got[min(len(want), len(cl.got)):] {
-				if g.file != e.path || g.line < lastLine {
+	}
+	var first *kit.Fail
+	for li, lim := range refread.LineLimits(texts...) {
+		counting := li == 0
+		var stats refread.Stats
+		tooLong := false
+		f := func() *kit.Fail {
+			m := refread.New()
+			var want []c02Rec
+			var stats refread.Stats
+			stopped, tooLong := false, false
+			usedDup := map[string]int{} // disambiguated label -> entry that used it
+			for i, e := range entries {
+				if e.file < 0 {
+					if gotErr == nil {
+						return kit.Failf("missing-io-error", "path #%d does not exist but Err()==nil", i)
+					}
+					stopped = true
 					break
 				}
-				lastLine = g.line
-				if g.kind != refread.KindResult {
-					continue
+				out := m.Read(e.path, string(c.Files[e.file].Text), refread.Options{LineLimit: lim})
+				tooLong = tooLong || out.TooLongLine != 0
+				stats = c02AddStats(stats, out.Stats)
+				// Expected .file label. Labelled: the label, verbatim. Path given
+				// once: the path. Path given several times: the documentation
+				// promises the path followed by "#N" without fixing N, so the label
+				// observed on this entry's first result is validated (shape, and
+				// not used by another occurrence) and then expected on all of them.
+				lab := e.path
+				switch {
+				case e.labeled:
+					lab = e.label
+					if counting {
+						kit.Count("labelled path entries", 1)
+					}
+				case argCount[e.path] > 1:
+					if counting {
+						kit.Count("duplicate path entries", 1)
+					}
+					lab = e.path + "#?"
+					// records before len(want) have already been compared; this
+					// entry's records follow, up to the next change of file or
+					// restart of the line numbers
+					lastLine := 0
+					for _, g := range cl.got[min(len(want), len(cl.got)):] {
+						if g.file != e.path || g.line < lastLine {
+							break
+						}
+						lastLine = g.line
+						if g.kind != refread.KindResult {
+							continue
+						}
+						obs := g.labels[".file"]
+						suffix, ok := strings.CutPrefix(obs, e.path+"#")
+						if _, err := strconv.ParseUint(suffix, 10, 32); !ok || err != nil {
+							return kit.Failf("dup-label", "path #%d %q is given %d times but its result at line %d carries .file=%q (want the path followed by \"#N\")", i, e.path, argCount[e.path], g.line, obs)
+						}
+						if j, used := usedDup[obs]; used {
+							return kit.Failf("dup-label", "path entries #%d and #%d (%q) share the label %q", j, i, e.path, obs)
+						}
+						usedDup[obs] = i
+						lab = obs
+						break
+					}
 				}
-				obs := g.labels[".file"]
-				suffix, ok := strings.CutPrefix(obs, e.path+"#")
-				if _, err := strconv.ParseUint(suffix, 10, 32); !ok || err != nil {
-					return kit.Failf("dup-label", "path #%d %q is given %d times but its result at line %d carries .file=%q (want the path followed by \"#N\")", i, e.path, argCount[e.path], g.line, obs)
+				want = append(want, c02Want(out.Records, e.path, map[string]string{".file": lab})...)
+				if f := c02ComparePrefix(cl.got, want); f != nil {
+					return f
 				}
-				if j, used := usedDup[obs]; used {
-					return kit.Failf("dup-label", "path entries #%d and #%d (%q) share the label %q", j, i, e.path, obs)
+				if out.Stopped {
+					stopped = true
+					break
 				}
-				usedDup[obs] = i
-				lab = obs
-				break
 			}
+			if gotErr != nil && !stopped {
+				return kit.Failf("unexpected-io-error", "Err()=%v but every file exists and no line is longer than %d bytes", gotErr, lim)
+			}
+			if gotErr == nil && stopped {
+				return kit.Failf("record-missing", "Err()==nil although a file holds a line longer than %d bytes (or is missing)", lim)
+			}
+			if f := c02Compare(cl.got, want); f != nil {
+				return f
+			}
+			if f := c02CheckUnits(fs.Units(), m.Units); f != nil {
+				return f
+			}
+			return nil
+		}()
+		if f == nil {
+			c02CountStats(stats, tooLong, gotErr != nil)
+			kit.Count("file sequences through Files", 1)
+			return nil
 		}
-		want = append(want, c02Want(out.Records, e.path, map[string]string{".file": lab})...)
-		if f := c02ComparePrefix(cl.got, want); f != nil {
-			return f
-		}
-		if out.Stopped {
-			stopped = true
-			break
+		if first == nil {
+			first = f
 		}
 	}
-	if gotErr != nil && !stopped {
-		return kit.Failf("unexpected-io-error", "Err()=%v but every file exists and no line is longer than %d bytes", gotErr, refread.MaxLine)
-	}
-	if f := c02Compare(cl.got, want); f != nil {
-		return f
-	}
-	if f := c02CheckUnits(fs.Units(), m.Units); f != nil {
-		return f
-	}
-	c02CountStats(stats, tooLong, gotErr != nil)
-	kit.Count("file sequences through Files", 1)
-	return nil
+	return first
 }
 
 func c02AddStats(a, b refread.Stats) refread.Stats {
@@ -624,24 +670,48 @@ func c02CheckReset(c c02FilesCase) *kit.Fail {
 		if ranOut {
 			err = rd.Err()
 		}
-		out := m.Read(name, text, refread.Options{StopAtTooLong: err != nil, MaxRecords: p.StopAfter})
-		if err != nil && !out.Stopped {
-			return kit.Failf("unexpected-io-error", "entry #%d: Err()=%v but no line is longer than %d bytes", i, err, refread.MaxLine)
+		// every line-length limit a conforming reader may have (see c02CheckText)
+		var first *kit.Fail
+		accepted := false
+		for _, lim := range refread.LineLimits(text) {
+			mc := m.Clone()
+			out := mc.Read(name, text, refread.Options{LineLimit: lim, MaxRecords: p.StopAfter})
+			recs := out.Records
+			abandoned := false
+			if p.StopAfter > 0 && len(recs) > p.StopAfter {
+				recs = recs[:p.StopAfter]
+				abandoned = true
+			}
+			wantNow := append(append([]c02Rec(nil), want...), c02Want(recs, name, labels)...)
+			f := func() *kit.Fail {
+				if err != nil && !out.Stopped {
+					return kit.Failf("unexpected-io-error", "entry #%d: Err()=%v but no line is longer than %d bytes", i, err, lim)
+				}
+				if ranOut && err == nil && out.Stopped {
+					return kit.Failf("record-missing", "entry #%d: Err()==nil although a line is longer than %d bytes", i, lim)
+				}
+				// compare eagerly so that the entry is named in the message
+				if f := c02Compare(cl.got, wantNow); f != nil {
+					f.Msg = fmt.Sprintf("after entry #%d (%q): %s", i, name, f.Msg)
+					return f
+				}
+				return c02CheckUnits(rd.Units(), mc.Units)
+			}()
+			if f == nil {
+				if abandoned {
+					kit.Count("files abandoned before EOF (Reset)", 1)
+				}
+				m, want = mc, wantNow
+				stats = c02AddStats(stats, out.Stats)
+				accepted = true
+				break
+			}
+			if first == nil {
+				first = f
+			}
 		}
-		recs := out.Records
-		if p.StopAfter > 0 && len(recs) > p.StopAfter {
-			recs = recs[:p.StopAfter]
-			kit.Count("files abandoned before EOF (Reset)", 1)
-		}
-		want = append(want, c02Want(recs, name, labels)...)
-		stats = c02AddStats(stats, out.Stats)
-		// compare eagerly so that the entry is named in the message
-		if f := c02Compare(cl.got, want); f != nil {
-			f.Msg = fmt.Sprintf("after entry #%d (%q): %s", i, name, f.Msg)
-			return f
-		}
-		if f := c02CheckUnits(rd.Units(), m.Units); f != nil {
-			return f
+		if !accepted {
+			return first
 		}
 	}
 	if f := cl.recheckClones(); f != nil {
